@@ -112,13 +112,19 @@ def gen_program(rng, small):
         threads = [t0] + others
         if free and pushes(threads) > capn:
             continue
-        if small and sum(len(t) for t in threads) > (9 if nt == 2 else 8):
+        nr = sum(1 for th in threads for o in th if o[0] == "R")
+        if small and (sum(len(t) for t in threads) > (9 if nt == 2 else 8) or nr > (4 if nt == 2 else 3)):
             continue
         if not any("R" in o for th in threads for o in th):
             continue
         return bits, threads
     return bits, [["B", "R", "S"], ["L", "U"]]
 
+
+# hand-aimed small programs (explored exhaustively in the model): (slot bits, program)
+AIMED = [(0, "B,R,S|L,U"), (1, "B,R,S|L,U"), (1, "B,R,R,S|L,U"), (1, "B,R,W,S|L,R,U"), (0, "B,R,R,R,W,S|L,U"),
+         (1, "R,B,R,S|L,U"), (1, "B,R,S,B,R,S|L,U"), (1, "B,L,R,U,S|L,U"), (0, "B,R,W,S|R|L,U"), (1, "B,S|R"),
+         (1, "B,R,W,S|L,L,U,R,U"), (0, "B,W,S|R,R,R"), (2, "B,R,S|L,R,U")]
 
 DIRECTED = [
     # (name, min-capacity, program, step_ns)  -- deterministic by construction (sleeps order the threads)
@@ -151,7 +157,10 @@ def main(argv):
         scheds = {"r0": [(r["seed"], r["strategy"], r["step_ns"])]}
     else:
         seen = set()
-        n_small, n_big = (36, 60) if not thorough else (110, 500)
+        n_small, n_big = (24, 60) if not thorough else (110, 500)
+        for bits, p in AIMED:
+            seen.add((bits, p))
+            progs.append(("s%d" % len(progs), 1 << bits, p, True))
         for small, n in ((True, n_small), (False, n_big)):
             tries = 0
             cnt = 0
@@ -167,7 +176,9 @@ def main(argv):
         for name, mc, p, _ in DIRECTED:
             progs.append((name, mc, p, False))
         nsched = 24 if not thorough else 100
-        base = [(rng.below(1 << 31), [0, 3, 1, 0][i % 4], [50, 20000, 200000, 1000000, 50, 5000][i % 6]) for i in range(nsched)]
+        # PCT never pre-empts a spinning thread: only with a step far below the 200 us / 1 ms polling sleeps (else unfair for ever)
+        base = [(rng.below(1 << 31), [0, 3, 1, 0][i % 4], 50 if i % 4 == 2 else [50, 20000, 200000, 1000000, 50, 5000][i % 6])
+                for i in range(nsched)]
         scheds = {}
         for pid, mc, p, small in progs:
             if pid.startswith("d."):
